@@ -222,4 +222,268 @@ theorem subPos_addPos (u off : List Nat) (h : u.length = off.length) : subPos (a
       addPos_getD _ _ _ hi (by omega)]
     omega
 
+
+/-! ## the multiset of non-zero pixels of an image that is black outside a region -/
+
+/-- an image of the right size that shows `g` on the region `off + [0, ns)` and is black elsewhere
+has the non-zero values of `g` as its non-zero pixels (as a multiset) -/
+theorem nonzero_region_perm (big : Image) (hsz : big.data.size = big.shape.prod) (off ns : List Nat)
+    (g : Pos → Nat) (hf : Fits big.shape off ns)
+    (hin : ∀ u, InImage ns u → big.pix (addPos u off) = g u)
+    (hout : ∀ p, InImage big.shape p → (∀ u, InImage ns u → p ≠ addPos u off) → big.pix p = 0) :
+    (nonzero big).Perm (((allIdx ns).map g).filter (fun v => v != 0)) := by
+  have hol := (fits_length hf).1
+  have hg : (allIdx ns).map g = ((allIdx ns).map (fun u => addPos u off)).map big.pix := by
+    rw [List.map_map]
+    apply List.map_congr_left
+    intro u hu
+    exact (hin u ((mem_allIdx ns u).mp hu)).symm
+  unfold nonzero
+  rw [hg, data_toList big hsz, List.filter_map, List.filter_map]
+  apply List.Perm.map
+  have ndM : ((allIdx ns).map (fun u => addPos u off)).Nodup := by
+    apply List.Nodup.map_on _ (allIdx_nodup ns)
+    intro u hu v hv e
+    exact addPos_inj ns off u v hol ((mem_allIdx ns u).mp hu) ((mem_allIdx ns v).mp hv) e
+  apply (List.perm_ext_iff_of_nodup ((allIdx_nodup _).filter _) (ndM.filter _)).mpr
+  intro p
+  simp only [List.mem_filter, mem_allIdx, List.mem_map, Function.comp_apply, bne_iff_ne, ne_eq]
+  constructor
+  · rintro ⟨hp, hne⟩
+    refine ⟨?_, hne⟩
+    by_contra hcon
+    apply hne
+    apply hout p hp
+    intro u hu e
+    exact hcon ⟨u, hu, e.symm⟩
+  · rintro ⟨⟨u, hu, rfl⟩, hne⟩
+    exact ⟨inImage_add _ _ _ _ hf hu, hne⟩
+
+/-- `IsEmbed` from its three pixel-wise clauses: for well-sized arrays the clause about the
+multiset of non-zero pixels follows -/
+theorem isEmbed_of_pix (content big : Image) (off : List Nat)
+    (hcs : content.data.size = content.shape.prod) (hbs : big.data.size = big.shape.prod)
+    (hf : Fits big.shape off content.shape)
+    (hin : ∀ u, InImage content.shape u → big.pix (addPos u off) = content.pix u)
+    (hout : ∀ p, InImage big.shape p → (∀ u, InImage content.shape u → p ≠ addPos u off) →
+      big.pix p = 0) : IsEmbed content off big := by
+  refine ⟨hf, hin, hout, ?_⟩
+  have := nonzero_region_perm big hbs off content.shape content.pix hf hin hout
+  rw [← data_toList content hcs] at this
+  exact this
+
+/-! ## `Locate.embed` is an embedding -/
+
+theorem inRegion_iff_getD : ∀ (os ns p : List Nat), os.length = ns.length → p.length = ns.length →
+    (Locate.inRegion os ns p = true ↔
+      ∀ i, i < ns.length → os.getD i 0 ≤ p.getD i 0 ∧ p.getD i 0 < os.getD i 0 + ns.getD i 0)
+  | [], [], [], _, _ => by simp [Locate.inRegion]
+  | o :: os, n :: ns, i :: p, h1, h2 => by
+    have ih := inRegion_iff_getD os ns p (by simpa using h1) (by simpa using h2)
+    simp only [Locate.inRegion, Bool.and_eq_true, decide_eq_true_eq, ih, List.length_cons]
+    constructor
+    · rintro ⟨h0, hr⟩ j hj
+      cases j with
+      | zero => simpa using h0
+      | succ j => simpa using hr j (by omega)
+    · intro hr
+      exact ⟨by simpa using hr 0 (by omega), fun j hj => by simpa using hr (j + 1) (by omega)⟩
+  | [], _ :: _, _, h1, _ => by simp at h1
+  | _ :: _, [], _, h1, _ => by simp at h1
+  | [], [], _ :: _, _, h2 => by simp at h2
+  | _ :: _, _ :: _, [], _, h2 => by simp at h2
+
+theorem embed_pix (canvas off : List Nat) (img : Image) {p : Pos} (hp : InImage canvas p) :
+    (Locate.embed canvas off img).pix p =
+      if Locate.inRegion off img.shape p then img.pix (subPos p off) else 0 :=
+  pix_mk canvas _ hp
+
+/-- **`Locate.embed` produces an embedding**: for a well-sized content image that fits into the
+canvas at `off`, the image the driver builds satisfies the relation `IsEmbed` the shift theorems
+assume (so the run-time check `isEmbedB` of these images can never fail). -/
+theorem embed_isEmbed (canvas off : List Nat) (content : Image)
+    (hcs : content.data.size = content.shape.prod) (hf : Fits canvas off content.shape) :
+    IsEmbed content off (Locate.embed canvas off content) := by
+  obtain ⟨hol, hNl, hb⟩ := (fits_iff_getD _ _ _).mp hf
+  apply isEmbed_of_pix content _ off hcs
+  · simp [Locate.embed, allIdx_length]
+  · exact hf
+  · intro u hu
+    obtain ⟨hul, hub⟩ := (inImage_iff_getD _ _).mp hu
+    have hin : InImage canvas (addPos u off) := inImage_add _ _ _ _ hf hu
+    rw [embed_pix canvas off content hin, subPos_addPos u off (by omega), if_pos]
+    rw [inRegion_iff_getD off content.shape _ hol (by simp [addPos_length]; omega)]
+    intro i hi
+    rw [addPos_getD u off i (by omega) (by omega)]
+    have := hub i hi
+    omega
+  · intro p hp hne
+    change InImage canvas p at hp
+    obtain ⟨hpl, hpb⟩ := (inImage_iff_getD _ _).mp hp
+    show (Locate.embed canvas off content).pix p = 0
+    rw [embed_pix canvas off content hp]
+    split
+    · rename_i hreg
+      rw [inRegion_iff_getD off content.shape p hol (by omega)] at hreg
+      exfalso
+      apply hne (subPos p off)
+      · rw [inImage_iff_getD]
+        refine ⟨by simp [subPos_length]; omega, fun i hi => ?_⟩
+        rw [subPos_getD p off i (by omega) (by omega)]
+        have := hreg i hi
+        omega
+      · apply ext_getD 0 content.shape.length (by omega)
+          (by simp [addPos_length, subPos_length]; omega)
+        intro i hi
+        rw [addPos_getD _ _ i (by simp [subPos_length]; omega) (by omega),
+          subPos_getD p off i (by omega) (by omega)]
+        have := hreg i hi
+        omega
+    · rfl
+
+/-! ## the `np.where` order is the lexicographic order -/
+
+/-- strict lexicographic order on index vectors -/
+def LexLt : List Nat → List Nat → Prop
+  | i :: p, j :: q => i < j ∨ (i = j ∧ LexLt p q)
+  | _, _ => False
+
+theorem LexLt.asymm : ∀ (p q : List Nat), LexLt p q → LexLt q p → False
+  | i :: p, j :: q, h1, h2 => by
+    simp only [LexLt] at h1 h2
+    rcases h1 with h1 | ⟨e1, h1⟩
+    · rcases h2 with h2 | ⟨e2, h2⟩ <;> omega
+    · rcases h2 with h2 | ⟨e2, h2⟩
+      · omega
+      · exact LexLt.asymm p q h1 h2
+  | [], _, h, _ => by simp [LexLt] at h
+  | _ :: _, [], h, _ => by simp [LexLt] at h
+
+theorem cart_pairwise : ∀ (rs : List (List Nat)), (∀ r ∈ rs, r.Pairwise (· < ·)) →
+    (cart rs).Pairwise LexLt
+  | [], _ => by simp [cart]
+  | r :: rs, h => by
+    have ih := cart_pairwise rs (fun x hx => h x (List.mem_cons_of_mem _ hx))
+    simp only [cart]
+    rw [List.pairwise_flatMap]
+    refine ⟨fun i _ => ?_, ?_⟩
+    · rw [List.pairwise_map]
+      exact ih.imp (fun hab => Or.inr ⟨rfl, hab⟩)
+    · refine (h r List.mem_cons_self).imp ?_
+      intro a b hab x hx y hy
+      obtain ⟨t, _, rfl⟩ := List.mem_map.mp hx
+      obtain ⟨t', _, rfl⟩ := List.mem_map.mp hy
+      exact Or.inl hab
+
+theorem allIdx_pairwise (shape : List Nat) : (allIdx shape).Pairwise LexLt := by
+  apply cart_pairwise
+  intro r hr
+  obtain ⟨n, _, rfl⟩ := List.mem_map.mp hr
+  exact List.pairwise_lt_range
+
+theorem candidates_pairwise (img : Image) (ks margin : List Nat) (thr : Rat) :
+    (candidates img ks thr margin).Pairwise LexLt :=
+  ((allIdx_pairwise img.shape).filter _).filter _
+
+theorem lexLt_addPos : ∀ (off u v : List Nat), u.length = off.length → v.length = off.length →
+    (LexLt (addPos u off) (addPos v off) ↔ LexLt u v)
+  | [], [], [], _, _ => by simp [addPos, LexLt]
+  | o :: os, i :: u, j :: v, h1, h2 => by
+    have ih := lexLt_addPos os u v (by simpa using h1) (by simpa using h2)
+    simp only [addPos, List.zipWith_cons_cons, LexLt] at ih ⊢
+    rw [ih]
+    have e1 : i + o < j + o ↔ i < j := by omega
+    have e2 : i + o = j + o ↔ i = j := by omega
+    rw [e1, e2]
+  | [], _ :: _, _, h1, _ => by simp at h1
+  | _ :: _, [], _, h1, _ => by simp at h1
+  | [], [], _ :: _, _, h2 => by simp at h2
+  | _ :: _, _ :: _, [], _, h2 => by simp at h2
+
+/-- two lists in strict lexicographic order with the same members are equal -/
+theorem eq_of_pairwise_lexLt {l₁ l₂ : List Pos} (h₁ : l₁.Pairwise LexLt) (h₂ : l₂.Pairwise LexLt)
+    (hm : ∀ p, p ∈ l₁ ↔ p ∈ l₂) : l₁ = l₂ := by
+  have irr : ∀ a b : Pos, LexLt a b → a ≠ b := fun a b hab e => LexLt.asymm a b hab (e ▸ hab)
+  have n₁ : l₁.Nodup := h₁.imp (fun {a b} hab => irr a b hab)
+  have n₂ : l₂.Nodup := h₂.imp (fun {a b} hab => irr a b hab)
+  exact List.Perm.eq_of_pairwise (fun a b _ _ hab hba => (LexLt.asymm a b hab hba).elim) h₁ h₂
+    ((List.perm_ext_iff_of_nodup n₁ n₂).mpr hm)
+
+theorem outsideMargin_zero : ∀ (ns u : List Nat), InImage ns u →
+    OutsideMargin ns (List.replicate ns.length 0) u
+  | [], [], _ => trivial
+  | n :: ns, i :: u, h => by
+    simp only [List.length_cons, List.replicate_succ, OutsideMargin]
+    exact ⟨⟨Nat.zero_le _, by have := h.1; omega⟩, outsideMargin_zero ns u h.2⟩
+  | [], _ :: _, h => h.elim
+  | _ :: _, [], h => h.elim
+
+/-- the maxima of the content itself (no margin) -/
+theorem contentMax_iff_mem (content : Image) (ks : List Nat) (thr : Rat) (u : Pos)
+    (hk : ks.length = content.shape.length) :
+    ContentMax content ks thr u ↔
+      u ∈ candidates content ks thr (List.replicate content.shape.length 0) := by
+  rw [mem_candidates content ks _ thr u hk (by simp)]
+  unfold ContentMax
+  constructor
+  · rintro ⟨h1, h2, h3⟩
+    exact ⟨h1, h2, h3, outsideMargin_zero _ _ h1⟩
+  · rintro ⟨h1, h2, h3, _⟩
+    exact ⟨h1, h2, h3⟩
+
+/-- **the maxima of an embedding, with their order**: the candidate list of the canvas is the
+candidate list of the content itself (margin 0), every position moved by the offset — as LISTS, i.e.
+the `np.where` order is preserved. -/
+theorem candidates_embed_eq (content big : Image) (off : List Nat) (h : IsEmbed content off big)
+    (ks margin : List Nat) (thr : Rat) (hthr : 0 ≤ thr)
+    (hk : ks.length = content.shape.length) (hm : margin.length = content.shape.length)
+    (hp : padOK big.shape off content.shape margin = true) :
+    candidates big ks thr margin =
+      (candidates content ks thr (List.replicate content.shape.length 0)).map (fun u => addPos u off) := by
+  have hol := (fits_length h.fits).1
+  apply eq_of_pairwise_lexLt (candidates_pairwise _ _ _ _)
+  · rw [List.pairwise_map]
+    refine (candidates_pairwise content ks _ thr).imp_of_mem ?_
+    intro a b ha hb hab
+    have la := ((contentMax_iff_mem content ks thr a hk).mpr ha).1.length_eq
+    have lb := ((contentMax_iff_mem content ks thr b hk).mpr hb).1.length_eq
+    exact (lexLt_addPos off a b (by omega) (by omega)).mpr hab
+  · intro p
+    rw [mem_candidates_embed content big off h ks margin thr hthr hk hm hp p, List.mem_map]
+    constructor
+    · rintro ⟨u, rfl, hu⟩
+      exact ⟨u, (contentMax_iff_mem content ks thr u hk).mp hu, rfl⟩
+    · rintro ⟨u, hu, rfl⟩
+      exact ⟨u, rfl, (contentMax_iff_mem content ks thr u hk).mpr hu⟩
+
+/-! ## the percentile threshold of natural-number pixels is ≥ 0 for a percentile ≥ 0 -/
+
+theorem percentileOf_nonneg (xs : List Nat) (pct : Rat) (hp : 0 ≤ pct) (t : Rat)
+    (h : percentileOf xs pct = some t) : 0 ≤ t := by
+  unfold percentileOf at h
+  simp only at h
+  split at h
+  · cases h
+  · injection h with h
+    rw [← h]
+    set pos : Rat := ((xs.length - 1 : Nat) : Rat) * pct / 100 with hpos
+    have hpos0 : 0 ≤ pos := by
+      rw [hpos]
+      apply div_nonneg (mul_nonneg (Nat.cast_nonneg _) hp)
+      norm_num
+    have hfl : (0 : Int) ≤ pos.floor := Rat.le_floor_iff.mpr (by simpa using hpos0)
+    have hcast : ((pos.floor.toNat : Nat) : Rat) = ((pos.floor : Int) : Rat) := by
+      have : ((pos.floor.toNat : Nat) : Int) = pos.floor := Int.toNat_of_nonneg hfl
+      exact_mod_cast congrArg (fun z : Int => (z : Rat)) this
+    have hg0 : 0 ≤ pos - ((pos.floor.toNat : Nat) : Rat) := by
+      rw [hcast]; have := Rat.floor_le pos; linarith
+    have hg1 : pos - ((pos.floor.toNat : Nat) : Rat) ≤ 1 := by
+      rw [hcast]; have := Rat.lt_floor_add_one pos; push_cast at this; linarith
+    generalize pos - ((pos.floor.toNat : Nat) : Rat) = g at hg0 hg1
+    generalize (sortNat xs).toArray.getD pos.floor.toNat 0 = a
+    generalize (sortNat xs).toArray.getD (min (pos.floor.toNat + 1) (xs.length - 1)) 0 = b
+    have ha : (0 : Rat) ≤ (a : Rat) := Nat.cast_nonneg a
+    have hb : (0 : Rat) ≤ (b : Rat) := Nat.cast_nonneg b
+    nlinarith [mul_nonneg ha (sub_nonneg.mpr hg1), mul_nonneg hb hg0]
+
 end TrackpyV.Find
